@@ -614,6 +614,9 @@ fn fuzz_stage(id: &str, tier: Tier, seed: u64, bin: &str, tape_max: usize, cpu_m
             .env("VP_PROP", id)
             .env("VP_ROOT", known::root())
             .arg(format!("-runs={}", runs))
+            // safety net only: the campaign is sized by -runs; a process that is still running after 10 minutes is ended
+            // (its findings so far are kept), so that the whole check stays far from its wall-clock limit
+            .arg("-max_total_time=600")
             .arg(format!("-seed={}", (seed as u32 as u64).wrapping_mul(31).wrapping_add(k as u64 + 1) & 0x7fff_ffff))
             .arg(format!("-max_len={}", if text_mode { 2048 } else { tape_max }))
             .arg("-len_control=0")
